@@ -11,7 +11,7 @@ TECH = ('symbolic execution of rustc MIR (mirsym) + z3 over symbolic Files/Deps 
         'filesystem model; obligations decided per path class; native replay on a materialised sqlite database / with the real binaries')
 
 PLAN = {
-    'C02': ['kernel', 'quiet_memo', 'two_phase'],
+    'C02': ['sched', 'kernel', 'quiet_memo', 'two_phase'],
     'C03': ['kernel', 'should_build', 'stamp', 'unlocked', 'env_inherit', 'record'],
     'C05': ['sched', 'kernel', 'set_failed', 'should_build', 'record', 'job_completion', 'script_args'],
     'C12': ['sched', 'kernel', 'cycles', 'env_inherit'],
